@@ -8,6 +8,7 @@ def run_conc(c, binp, name, programs, conc, child=0, backend=False, timeout=1800
                programs=programs, child=child, gen=dict(Prefix=name[:1]), conc=conc)
     if backend:
         cfg["backend_out"] = os.path.join(c.scratch, name + "-backend.ndjson")
+    os.environ.setdefault("VERIF_MAXTIME_MS", "15000")
     traces = txnlib.run_driver(c, binp, "conc", cfg, timeout=timeout)
     for n, h, evs in traces:
         for e in evs:
